@@ -34,21 +34,23 @@ var verifDir = func() string {
 	}
 	return "/verif"
 }()
+
 const repoDir = "/repo"
 
 type propCfg struct {
-	Flavor     string // worker main package under cmd/
-	Rewrite    string // simrewrite pass set ("" = none)
-	Level      string
-	QuickRuns  int           // per worker
-	QuickDL    time.Duration // per worker deadline
-	ThorDL     time.Duration // total thorough budget
-	ThorSeeds  int
-	Workers    int
-	Rule       string
-	Real, Stub []string
-	Assume     []string
-	StateRule  string
+	Flavor      string // worker main package under cmd/
+	Rewrite     string // simrewrite pass set ("" = none)
+	RewriteArgs []string
+	Level       string
+	QuickRuns   int           // per worker
+	QuickDL     time.Duration // per worker deadline
+	ThorDL      time.Duration // total thorough budget
+	ThorSeeds   int
+	Workers     int
+	Rule        string
+	Real, Stub  []string
+	Assume      []string
+	StateRule   string
 }
 
 func main() {
@@ -113,7 +115,8 @@ func buildWorker(cfg propCfg, runDir string) (string, error) {
 	if cfg.Rewrite != "" {
 		// simrewrite writes rewritten copies into runDir/rw and returns extra overlay entries.
 		rw := filepath.Join(runDir, "rw")
-		cmd := exec.Command(filepath.Join(verifDir, "bin", "simrewrite"), "-passes", cfg.Rewrite, "-out", rw)
+		args := append([]string{"-passes", cfg.Rewrite, "-out", rw}, cfg.RewriteArgs...)
+		cmd := exec.Command(filepath.Join(verifDir, "bin", "simrewrite"), args...)
 		cmd.Env = goEnv()
 		var out bytes.Buffer
 		cmd.Stdout = &out
@@ -153,6 +156,18 @@ func run(id, mode string, cfg propCfg, seed uint64, runDir string) int {
 		return 2
 	}
 	buildS := time.Since(t0).Seconds()
+	if mode == "build" {
+		// developer aid: keep the worker binary (and rewritten sources) somewhere
+		if len(os.Args) < 4 {
+			fmt.Fprintln(os.Stderr, "usage: vcheck <id> build <dir>")
+			return 2
+		}
+		os.MkdirAll(os.Args[3], 0o755)
+		exec.Command("cp", "-r", bin, filepath.Join(runDir, "overlay.json"), os.Args[3]).Run()
+		exec.Command("cp", "-r", filepath.Join(runDir, "rw"), os.Args[3]).Run()
+		fmt.Println("built", filepath.Join(os.Args[3], "worker"))
+		return 0
+	}
 	if mode == "replay" {
 		if len(os.Args) < 4 {
 			fmt.Fprintln(os.Stderr, "usage: vcheck <id> replay <file>")
